@@ -113,7 +113,30 @@ std::vector<OpWeight> printable_table()
       { OP_make_subregion, 1 }, { OP_make_alias, 3 }, { OP_make_var, 10 }, { OP_make_field, 4 }, { OP_make_bitfield, 2 }, { OP_make_typedecl, 5 }, { OP_make_fundecl, 5 }, { OP_make_primary_template, 2 },
       { OP_enum_add_member, 5 }, { OP_class_declare_base, 2 }, { OP_plist_add_member, 4 }, { OP_mapping_param, 4 },
       { OP_set_decl_fields, 14 }, { OP_set_stmt_fields, 6 }, { OP_set_loop_fields, 8 }, { OP_set_expr_fields, 3 }, { OP_set_udt_fields, 8 }, { OP_set_callable_fields, 4 },
+      // complete constructs, assembled bottom-up: these make units print in full
+      { OP_macro_var, 14 }, { OP_macro_function, 12 }, { OP_macro_class, 7 }, { OP_macro_template, 5 }, { OP_macro_stmt_tree, 6 },
    };
+}
+
+// Clean programs: declarations enter scopes only through the macro operations (which build them completely), statements
+// enter blocks only through the statement-tree macro; the primitives left are names, types, expressions and setters.
+std::vector<OpWeight> clean_table()
+{
+   std::vector<OpWeight> t;
+   for (auto& w : printable_table()) {
+      switch (w.code) {
+      case OP_make_class: case OP_make_union: case OP_make_enum: case OP_make_namespace:
+      case OP_make_alias: case OP_make_var: case OP_make_field: case OP_make_bitfield: case OP_make_typedecl: case OP_make_fundecl: case OP_make_primary_template:
+      case OP_block_add_stmt: case OP_block_new_handler: case OP_handler_add_stmt: case OP_make_subregion:
+      case OP_make_do: case OP_make_while: case OP_make_switch: case OP_make_for: case OP_make_for_in: case OP_set_loop_fields:
+      case OP_plist_add_member: case OP_mapping_param: case OP_make_mapping: case OP_set_callable_fields:
+         continue;
+      default:
+         t.push_back(w);
+      }
+   }
+   for (auto& w : t) if (w.code >= OP_macro_var) w.weight *= 3;
+   return t;
 }
 
 // ------------------------------------------------------------------------------ C17
@@ -165,8 +188,10 @@ struct C17 : Scenario {
    {
       Rng r(run_seed);
       const size_t n = size_t(r.range(30, 260));
-      Plan p = gen_world_plan(r, printable_table(), n, int(r.range(3, 24)), 0);
+      const bool clean = r.chance(2, 3);
+      Plan p = gen_world_plan(r, clean ? clean_table() : printable_table(), n, int(r.range(3, 24)), 0);
       p.seed = run_seed;
+      p.set("clean", clean);
       p.set("policy2", int64_t(r.below(4)));
       p.set("noise", int64_t(r.below(6)));
       p.set("style", int64_t(r.below(8)));
@@ -264,6 +289,7 @@ struct C17 : Scenario {
             if (a.outcome == PrintResult::Refused) ctx.probe(Q_refused_prints);
             if (not a.text.empty()) ctx.probe(Q_nonempty_texts);
             ctx.event("print %s#%zu loc=%d -> %zu bytes %s", what, index, loc, a.text.size(), outcome_tag(a).c_str());
+            if (ctx.verbose and std::string(what) == "unit") std::printf("----\n%s\n----\n", a.text.substr(0, 1500).c_str());
             if (a.outcome == PrintResult::OtherException or b.outcome == PrintResult::OtherException)
                return Verdict::fail(std::string("C17/exception/") + what, "printing threw something that is not a logic_error: " + a.what + b.what);
             if (ta != ta2)
@@ -392,8 +418,9 @@ struct C18 : Scenario {
       Rng r(run_seed);
       const size_t n = size_t(r.range(20, 160));
       std::vector<OpWeight> tab;
-      if (r.chance(1, 2)) tab = printable_table();
-      else { for (int c = 0; c < OP_noise_alloc; ++c) tab.push_back({ c, c >= OP_set_decl_fields ? 6 : 2 }); }
+      if (r.chance(1, 3)) tab = clean_table();
+      else if (r.chance(1, 2)) tab = printable_table();
+      else { for (int c = 0; c < OP_noise_alloc; ++c) tab.push_back({ c, c >= OP_set_decl_fields ? 6 : 2 }); for (int c = OP_macro_var; c < OP_COUNT; ++c) tab.push_back({ c, 8 }); }
       Plan p = gen_world_plan(r, tab, n, int(r.range(3, 24)), 0);
       p.seed = run_seed;
       p.set("style", int64_t(r.below(8)));
